@@ -175,9 +175,10 @@ func runC01(c *core.Case) {
 		}
 		return true
 	}
+	wrng := c.SubRng("write-choice") // write() also runs on a burst goroutine: not the case's main generator
 	write := func(k int) bool {
 		for i := 0; i < k; i++ {
-			name := names[c.Rng.IntN(len(names))]
+			name := names[wrng.IntN(len(names))]
 			if _, err := writers[name].txn(6); err != nil {
 				healthViolations(c, writers[name].n, "write", nil)
 				if !c.Violated() {
